@@ -105,7 +105,7 @@ fn gen_cell(rng: &mut Rng, c: usize, dom: i64, nullp: u64) -> Cell {
         return Cell::Null;
     }
     if c == 1 {
-        let k = if dom < STRS.len() as i64 { dom.max(1) as usize } else { STRS.len() };
+        let k = (dom.max(1) as usize).min(STRS.len());
         Cell::S(STRS[rng.below(k as u64) as usize].to_string())
     } else if rng.chance(3, 100) {
         Cell::I(*rng.pick(&[i64::MIN, i64::MAX, i64::MIN + 1, i64::MAX - 1]))
@@ -536,6 +536,97 @@ fn gen_exch(rng: &mut Rng) -> ExchCfg {
     }
 }
 
+/// fixed witness configuration of the known finding "hang with a shared (multi-producer) spill pool"
+fn witness_cfg(rng: &mut Rng) -> ExchCfg {
+    let mut inputs = vec![];
+    for i in 0..4usize {
+        let mut bs = vec![];
+        let mut pos = 0i64;
+        for _ in 0..6 {
+            let rows: Vec<Row> = (0..8)
+                .map(|_| {
+                    pos += 1;
+                    Row { cells: gen_cells(rng, 3, 10), id: ((i as i64) << 20) + pos - 1 }
+                })
+                .collect();
+            bs.push(rows);
+        }
+        inputs.push(bs);
+    }
+    ExchCfg {
+        scheme: Scheme::RoundRobin { n: 1 },
+        inputs,
+        sorted: None,
+        want_preserve: false,
+        batch_size: 3,
+        mem: Some(1),
+        drops: vec![None],
+    }
+}
+
+/// Mechanism probe for the known finding: two producers push concurrently into one shared (mpsc) spill pool and stay
+/// alive (as input tasks blocked on the channel gate do); how many of the written batches can the reader get?
+fn probe(rng: &mut Rng) {
+    use datafusion_physical_plan::metrics::{ExecutionPlanMetricsSet, SpillMetrics};
+    use datafusion_physical_plan::spill::spill_pool::mpsc_channel;
+    use datafusion_physical_plan::SpillManager;
+    let sch = schema();
+    let env = RuntimeEnvBuilder::new().build_arc().unwrap();
+    let rt = tokio::runtime::Builder::new_multi_thread().worker_threads(2).enable_all().build().unwrap();
+    for round in 0..20 {
+        let metrics = ExecutionPlanMetricsSet::new();
+        let sm = Arc::new(SpillManager::new(Arc::clone(&env), SpillMetrics::new(&metrics, 0), Arc::clone(&sch)));
+        let (w, mut reader) = mpsc_channel(100 * 1024 * 1024, sm);
+        let sinks = vec![w.new_sink(), w.new_sink()];
+        let per = 200usize;
+        let rows = gen_rows(rng, 4, 3, 10);
+        let b = batch(&sch, &rows);
+        let sinks: Vec<_> = std::thread::scope(|sc| {
+            let hs: Vec<_> = sinks
+                .into_iter()
+                .map(|s| {
+                    let b = b.clone();
+                    sc.spawn(move || {
+                        for _ in 0..per {
+                            s.push_batch(&b).unwrap();
+                        }
+                        s
+                    })
+                })
+                .collect();
+            hs.into_iter().map(|h| h.join().unwrap()).collect()
+        });
+        // all 2*per batches are written and flushed; all writers still alive
+        let (read_alive, reader_back) = rt.block_on(async move {
+            let mut n = 0usize;
+            loop {
+                match tokio::time::timeout(Duration::from_millis(500), reader.next()).await {
+                    Ok(Some(Ok(_))) => n += 1,
+                    _ => break,
+                }
+            }
+            (n, reader)
+        });
+        drop(sinks);
+        drop(w);
+        let mut reader = reader_back;
+        let read_after = rt.block_on(async move {
+            let mut n = 0usize;
+            while let Ok(Some(Ok(_))) = tokio::time::timeout(Duration::from_millis(2000), reader.next()).await {
+                n += 1;
+            }
+            n
+        });
+        println!(
+            "{{\"k\":\"probe\",\"round\":{},\"written\":{},\"readable_while_writers_alive\":{},\"read_after_all_writers_dropped\":{}}}",
+            round,
+            2 * per,
+            read_alive,
+            read_after
+        );
+    }
+}
+
 enum OutObs {
     Dropped,
     Read(Vec<i64>),
@@ -786,8 +877,25 @@ fn main() {
     let seed: u64 = arg(&args, "--seed", "1").parse().unwrap();
     let n: usize = arg(&args, "--n", "200").parse().unwrap();
     let watchdog: u64 = arg(&args, "--watchdog", "120").parse().unwrap();
-    std::panic::set_hook(Box::new(|_| {}));
+    if std::env::var("C10_SHOW_PANICS").is_err() {
+        std::panic::set_hook(Box::new(|_| {}));
+    }
+    let stress: usize = arg(&args, "--stress", "0").parse().unwrap();
+    let stress_workers: usize = arg(&args, "--stress-workers", "4").parse().unwrap();
     let mut rng = Rng::new(seed);
+    if arg(&args, "--probe", "0") != "0" {
+        probe(&mut rng);
+        return;
+    }
+    if stress > 0 {
+        // many inputs -> one output, everything spills (1-byte pool), non-preserve-order: the shared multi-producer spill pool
+        let rt = tokio::runtime::Builder::new_multi_thread().worker_threads(stress_workers).enable_all().build().unwrap();
+        let cfg = witness_cfg(&mut rng);
+        for _ in 0..stress {
+            run_exch(&cfg, &rt, stress_workers, watchdog);
+        }
+        return;
+    }
     let rts: Vec<(usize, tokio::runtime::Runtime)> = [1usize, 2, 4]
         .iter()
         .map(|w| (*w, tokio::runtime::Builder::new_multi_thread().worker_threads(*w).enable_all().build().unwrap()))
